@@ -282,7 +282,7 @@ def register(R):
                    loops={0: Loop(inv0, mod_locals=['name', 'child', 'child_path', 'keep', 'possibly_new_child'], mod_at=mod_at0, mod_where=mod_where0),
                           1: Loop(inv1, mod_locals=['name'], mod_at=mod_at1),
                           2: Loop(inv2, mod_locals=['name', 'child'])},
-                   props=('C04', 'C15', 'C05', 'C02'), opts={'use': use, 'no_search': True, 'verify_only': True, 'assume_children_are_objects': True, 'shards': 8,
+                   props=('C04', 'C15', 'C05', 'C02', 'C14'), opts={'use': use, 'no_search': True, 'verify_only': True, 'assume_children_are_objects': True, 'shards': 8,
                                              'replay_direct': replay_direct, 'no_model_replay': True},
                    note='mapping receivers (ConfigDict and the function nodes); list receivers are covered by the bounded stand-in only'))
 
